@@ -68,8 +68,13 @@ def run(ctx):
                     fw.append((t, node_arg))
                 elif "cell:LpgStore.backward_adj" in rt:
                     bw.append((t, node_arg))
-        if not fw or not bw:
+        if not fw and not bw:
             raise CheckerError("C14-R1a: adjacency calls not found in LpgStore::%s" % m)
+        ctx.ob("R1a", "LpgStore::%s#both-directions" % m, bool(fw) and bool(bw),
+               what="LpgStore::%s updates the %s adjacency but not the %s one: outgoing and incoming neighbour lists disagree with the "
+                    "edge set" % (m, "forward" if fw else "backward", "backward" if fw else "forward"), where=f.loc())
+        if not fw or not bw:
+            continue
         for (t1, a1) in fw:
             for (t2, a2) in bw:
                 nn += 1
